@@ -52,11 +52,16 @@ def render(flows):
         src += PRELUDES.get(f.get("prelude"), "")
         args = ", ".join("%s=%s" % (p, 99 if (f["mismatch"] and p == f["S"][0]) else VAL[p]) for p in f["S"])
         aargs = "" if f["aarg"] is None else "x=%d" % f["aarg"]
-        if f.get("fork"):
+        if f.get("scoped"):
+            # the action is started inside the scope of an or-group (`await <action> or <flow>`); afterwards the flow goes on
+            src += "  match Ev(%s)\n  await %s%sAction(%s) or never helper\n  $went_on = %d\n  match NeverAfter()\n\n" % (args, f["act"], "Y" if f["loop"] else "X", aargs, f["i"] + 100)
+        elif f.get("fork"):
             nm = "%s%sAction" % (f["act"], "Y" if f["loop"] else "X")
             src += "  match Ev(%s)\n  start %s(x=1) or %s(x=2)\n\n" % (args, nm, nm)
         else:
             src += "  match Ev(%s)\n  start %s%sAction(%s)\n\n" % (args, f["act"], "Y" if f["loop"] else "X", aargs)
+    if any(f.get("scoped") for f in flows):
+        src += "flow never helper\n  match NeverH()\n\n"
     if any(f.get("prelude") for f in flows):
         src += "flow failing one\n  abort\n\nflow failing two\n  abort\n\nflow done one\n  $z = 1\n\n"
     return src
@@ -93,10 +98,11 @@ def gen_program(rng, flows=None):
             override = rng.choice([None, None, None, None, "base-has-loop", "plain"])
             prelude = rng.choice(sorted(PRELUDES)) if rng.random() < 0.25 else None
             fork = rng.random() < 0.15
+            scoped = (not fork) and rng.random() < 0.15
             if fork:
                 # the flow forks right after its match: `start A(x=1) or A(x=2)` (one alternative is picked); its own action name
                 act, aarg = "F%d" % i, None
-            flows.append(dict(i=i, S=S, mismatch=mismatch, prio=prio, loop=loop, act=act, aarg=aarg, override=override, prelude=prelude, fork=fork))
+            flows.append(dict(i=i, S=S, mismatch=mismatch, prio=prio, loop=loop, act=act, aarg=aarg, override=override, prelude=prelude, fork=fork, scoped=scoped))
     ev = {"type": "Ev", "a": 1, "b": 2, "c": 3}
     return {"flows": flows, "src": render(flows), "event": ev}
 
@@ -187,8 +193,9 @@ def execute(g, script):
     # the second event fits only flows that did not fit the first one
     ev2 = {"type": "Ev", "a": 99, "b": 99, "c": 99}
     # make ev2 fit mismatching flows whose other mentioned params keep the normal value:
+    reacted = set()  # flows that went past their match and are still running (their action sits in an or-group)
     for ev in (ev1, ev2):
-        waiting = {f["i"] for f in flows if _status(st, f) == "started"}
+        waiting = {f["i"] for f in flows if _status(st, f) == "started" and f["i"] not in reacted}
         if ev is ev2:
             # choose per-parameter values so that at least the first still-waiting mismatching flow fits
             cand = [f for f in flows if f["i"] in waiting and f["mismatch"]]
@@ -204,7 +211,26 @@ def execute(g, script):
         else:
             out = v2h.run(st, dict(ev))
         starts = [(e["type"][5:-6], e.get("x")) for e in out if e["type"].startswith("Start") and e["type"].endswith("Action")]
-        obs.append({"event": ev, "second": ev.get("a") == 99 or ev.get("b") == 99 or ev.get("c") == 99, "waiting_before": sorted(waiting), "starts": starts, "status": {f["i"]: _status(st, f) for f in flows}})
+        rec = {"event": ev, "second": ev.get("a") == 99 or ev.get("b") == 99 or ev.get("c") == 99, "waiting_before": sorted(waiting), "starts": starts, "status": {f["i"]: _status(st, f) for f in flows}}
+        if any(f.get("scoped") for f in flows):
+            # the environment finishes every action that was started: flows that started theirs inside an or-group go on
+            after = []
+            for e in out:
+                if e["type"].startswith("Start") and e["type"].endswith("Action"):
+                    fin = {"type": e["type"][5:] + "Finished", "action_uid": e["action_uid"], "is_success": True, "return_value": None}
+                    o2 = api.run(fin) if api is not None else v2h.run(st, fin)
+                    if api is not None:
+                        st = api.st
+            # (what a flow does next must not be an action: two co-winners reacting to the same Finished event with different
+            #  actions would be a new conflict, rightly resolved against one of them)
+            for f in flows:
+                lst = st.flow_id_states.get(fname(f["i"]), [])
+                if f.get("scoped") and lst and lst[-1].context.get("went_on") == f["i"] + 100:
+                    after.append(f["i"])
+            rec["after"] = after
+            rec["status_after_finish"] = {f["i"]: _status(st, f) for f in flows}
+        obs.append(rec)
+        reacted |= {f["i"] for f in flows if f.get("scoped") and f["i"] in waiting and fits(f, ev)}
     return obs, list(L["random"].log)
 
 
@@ -255,8 +281,19 @@ def judge(flows, obs):
                     if s != "started":
                         problems.append("nonfitting-flow-disturbed")
                 elif won in ids_of(f, suffix):
-                    if s != "finished":
+                    if f.get("scoped"):
+                        # still inside its flow (waiting for the action); once the action has finished it must have gone on
+                        if s != "started":
+                            problems.append("cowinner-not-proceeding(%s)" % s)
+                        elif "after" in o and (o["after"].count(f["i"]) != 1 or o["status_after_finish"][f["i"]] != "started"):
+                            problems.append("cowinner-lost-after-the-shared-action-finished(%s)" % o["status_after_finish"][f["i"]])
+                    elif s != "finished":
                         problems.append("cowinner-not-proceeding(%s)" % s)
+                elif f.get("scoped"):
+                    # its action was one alternative of an or-group: losing the conflict fails that alternative only, the flow
+                    # lives on waiting for the other one - and must not have started anything
+                    if s != "started":
+                        problems.append("scoped-loser-not-kept-waiting(%s)" % s)
                 else:
                     if s != "stopped":
                         problems.append("loser-not-failed(%s)" % s)
